@@ -111,11 +111,22 @@ func runC15(c *Ctx) {
 			nNode++
 			pat := "call<*>(p0, ext#0(" + self + "(p0, slice(p1, 0, $k))), ext#0(" + self + "(p0, slice(p1, $k, none))))"
 			bd, ok := ana.Match(pat, vt)
+			nodeInline := false
+			if !ok {
+				// the node hash computed in place: t.hash.New(), Write([0x01]), Write(left), Write(right), Sum(nil)
+				patI := "call<(hash.Hash).Sum>(obj(call<(crypto.Hash).New>(load(faddr<#0>(p0))), call<(hash.Hash).Write>(self, slice(obj(alloc<[1]byte>, store(iaddr(self, 0), 1)), 0, none)), call<(hash.Hash).Write>(self, ext#0(" + self + "(p0, slice(p1, 0, $k)))), call<(hash.Hash).Write>(self, ext#0(" + self + "(p0, slice(p1, $k, none))))), nil)"
+				if bd, ok = ana.Match(patI, vt); ok {
+					nodeInline = true
+					r.OK("C15.shape.node-hash", c.ipos(e.Instr), "node = t.hash: Write([0x01]), Write(left), Write(right), Sum(nil), computed in place")
+				}
+			}
 			if !ok {
 				r.Viol("C15.shape.node", c.ipos(e.Instr), "node result is not node(Hash(data[0:k]), Hash(data[k:])) with the same k, left first: %s", ana.Explain(pat, vt))
 				continue
 			}
-			nodeFn = calleeOf(vt)
+			if !nodeInline {
+				nodeFn = calleeOf(vt)
+			}
 			_, okK := ana.Match("call<*>(len(p1))", bd["$k"])
 			split = calleeOf(bd["$k"])
 			r.Check(okK && split != nil && it.pre(n0) && it.pre(n1), "C15.shape.node", c.ipos(e.Instr), "node = H(0x01‖Hash(data[:k])‖Hash(data[k:])), k = split(len(data)), under len(data) >= 2; the two sub-slices partition the argument")
